@@ -524,3 +524,31 @@ func toStrs(v any) []string {
 	}
 	return nil
 }
+
+// prefixLists: lists whose entries are textual prefixes / decimal extensions of one another
+// ("20/5/7/..." vs "20/5/70/..." vs "20/57/7/..."): string shortcuts (HasPrefix, map keys built
+// without a delimiter) confuse them. Returns lists of 2-3 valid voxels in several orders.
+func prefixLists(h, v int64) [][]ref.Vox {
+	if h < 7 {
+		return nil
+	}
+	a := ref.Vox{H: h, X: 5, Y: 7, V: v, F: 1}
+	cands := []ref.Vox{
+		{H: h, X: 5, Y: 70, V: v, F: 1},  // y extended by a digit
+		{H: h, X: 57, Y: 7, V: v, F: 1},  // x extended
+		{H: h, X: 5, Y: 7, V: v, F: 12},  // f extended
+		{H: h, X: 5, Y: 71, V: v, F: -1}, // y extended, other sign of f
+	}
+	if v*10+1 <= 35 {
+		cands = append(cands, ref.Vox{H: h, X: 5, Y: 7, V: v*10 + 1, F: 1}) // vertical zoom extended
+	}
+	var out [][]ref.Vox
+	for _, b := range cands {
+		if !b.Valid() || !a.Valid() {
+			continue
+		}
+		far := ref.Vox{H: h, X: 99, Y: 3, V: v, F: 0}
+		out = append(out, []ref.Vox{a, b}, []ref.Vox{b, a}, []ref.Vox{a, far, b}, []ref.Vox{a, b, b})
+	}
+	return out
+}
